@@ -8,12 +8,11 @@ open PyGql PyGql.Validate.Spec
 
 theorem withinM_post (s : SchemaD) (fx : Fixes) (d : Doc) (h7 : fx.v7 = true) (hpa : ParentsAgree s d) (hw : WfIds d)
     (fuel : Nat)
-    (hnb : ∀ e, Ent s d e → e.hasSub = true → NotBody d e.ssid)
     (p : Option String) (i : Nat) (sels : List Sel) (c : OCtx) (hc : CI s d c) (h1 : SelSet d i sels) (h2 : Adm s d i p)
-    (hap : ∀ g, SpreadD sels g → Apart d i g) (hcr : (withinSelectionSetM s fx fuel p i sels c).2.crash = none) :
+    (hcr : (withinSelectionSetM s fx fuel p i sels c).2.crash = none) :
     GPM s d c (withinSelectionSetM s fx fuel p i sels c) (fun M => WithinCertM s d M i p sels) := by
   obtain ⟨sf, _, sff, sfr, _⟩ := searchM_sound s fx d h7 fuel
-  obtain ⟨ef, _, efr, _, eff⟩ := postM_all s fx d h7 hpa hw hnb fuel
+  obtain ⟨ef, _, efr, _, eff⟩ := postM_all s fx d h7 hpa hw fuel
   obtain ⟨_, _, _, _, kff⟩ := cmp_framesM s fx h7 fuel
   revert hcr
   simp only [withinSelectionSetM]
@@ -67,7 +66,7 @@ theorem withinM_post (s : SchemaD) (fx : Fixes) (d : Doc) (h7 : fx.v7 = true) (h
     (fun M _ n => FCov d M false i n)
     (fun g hg c hc => ⟨⟨(sff false i fm g c hc.1 x2).1, cmpOK_frame s fx d h7 fuel false i fm g c hc.1 x2 hc.2⟩,
       kff false i fm g c,
-      fun h => eff false i fm g c hc.1 x2 hfm (hap g (xsnd g hg)) hc.2 h⟩)
+      fun h => eff false i fm g c hc.1 x2 hfm hc.2 h⟩)
     { r0.2 with cmp := [] } ⟨ci0.cmp _, fun _ h => nomatch h⟩ hcr1
   have g1 : GPM s d r0.2 ((sumLoop fr (fun g c => betweenFieldsAndFragmentM s fx fuel false i fm g c)
         { r0.2 with cmp := [] }).1,
